@@ -5,6 +5,7 @@ pub mod c03;
 pub mod parse;
 pub mod lex;
 pub mod builtins;
+pub mod evalprops;
 
 #[derive(Clone, Copy, PartialEq, Debug)]
 pub enum Tier {
@@ -36,6 +37,12 @@ pub fn by_id(id: &str) -> Option<Box<dyn Property>> {
         "C06" => Some(Box::new(lex::C06)),
         "C07" => Some(Box::new(lex::C07)),
         "C10" => Some(Box::new(builtins::C10)),
+        "C04" => Some(Box::new(evalprops::C04)),
+        "C08" => Some(Box::new(evalprops::C08)),
+        "C09" => Some(Box::new(evalprops::C09)),
+        "C11" => Some(Box::new(evalprops::C11)),
+        "C12" => Some(Box::new(evalprops::C12)),
+        "C14" => Some(Box::new(evalprops::C14)),
         "C05" => Some(Box::new(parse::C05)),
         "C13" => Some(Box::new(parse::C13)),
         _ => None,
